@@ -1370,10 +1370,7 @@ impl TestTextSelection for TextSelectionSet {
             return false;
         }
         match operator {
-            TextSelectionOperator::Equals {
-                all: false,
-                negate: false,
-            } => {
+            TextSelectionOperator::Equals { negate: false, .. } => {
                 //ALL of the items in this set must match with ANY item in the otherset
                 for item in self.iter() {
                     if !item.test(operator, reftextsel, resource) {
@@ -1423,7 +1420,8 @@ impl TestTextSelection for TextSelectionSet {
                 all: false,
                 negate: false,
             }
-            | TextSelectionOperator::InSet {
+            | TextSelectionOperator::InSet { negate: false, .. }
+            | TextSelectionOperator::SameRange {
                 all: false,
                 negate: false,
             } => {
@@ -1516,7 +1514,8 @@ impl TestTextSelection for TextSelectionSet {
             | TextSelectionOperator::Succeeds { negate: true, .. }
             | TextSelectionOperator::SameBegin { negate: true, .. }
             | TextSelectionOperator::SameEnd { negate: true, .. }
-            | TextSelectionOperator::InSet { negate: true, .. } => {
+            | TextSelectionOperator::InSet { negate: true, .. }
+            | TextSelectionOperator::SameRange { negate: true, .. } => {
                 !self.test(&operator.toggle_negate(), reftextsel, resource)
             }
             _ => unreachable!("unknown operator+modifier combination"),
@@ -1535,10 +1534,7 @@ impl TestTextSelection for TextSelectionSet {
             return false;
         }
         match operator {
-            TextSelectionOperator::Equals {
-                all: false,
-                negate: false,
-            } => {
+            TextSelectionOperator::Equals { negate: false, .. } => {
                 if self.len() != refset.len() {
                     //each item must have a counterpart so the sets must be equal length
                     return false;
@@ -1592,7 +1588,8 @@ impl TestTextSelection for TextSelectionSet {
                 all: false,
                 negate: false,
             }
-            | TextSelectionOperator::InSet {
+            | TextSelectionOperator::InSet { negate: false, .. }
+            | TextSelectionOperator::SameRange {
                 all: false,
                 negate: false,
             } => {
@@ -1685,7 +1682,8 @@ impl TestTextSelection for TextSelectionSet {
             | TextSelectionOperator::Succeeds { negate: true, .. }
             | TextSelectionOperator::SameBegin { negate: true, .. }
             | TextSelectionOperator::SameEnd { negate: true, .. }
-            | TextSelectionOperator::InSet { negate: true, .. } => {
+            | TextSelectionOperator::InSet { negate: true, .. }
+            | TextSelectionOperator::SameRange { negate: true, .. } => {
                 !self.test_set(&operator.toggle_negate(), refset, resource)
             }
             _ => unreachable!("unknown operator+modifier combination"),
@@ -1812,7 +1810,8 @@ impl TestTextSelection for TextSelection {
             | TextSelectionOperator::Succeeds { negate: true, .. }
             | TextSelectionOperator::SameBegin { negate: true, .. }
             | TextSelectionOperator::SameEnd { negate: true, .. }
-            | TextSelectionOperator::InSet { negate: true, .. } => {
+            | TextSelectionOperator::InSet { negate: true, .. }
+            | TextSelectionOperator::SameRange { negate: true, .. } => {
                 !self.test(&operator.toggle_negate(), reftextsel, resource)
             }
             _ => unreachable!("unknown operator+modifier combination"),
@@ -1829,10 +1828,7 @@ impl TestTextSelection for TextSelection {
         resource: &TextResource,
     ) -> bool {
         match operator {
-            TextSelectionOperator::Equals {
-                all: false,
-                negate: false,
-            }
+            TextSelectionOperator::Equals { negate: false, .. }
             | TextSelectionOperator::Overlaps {
                 all: false,
                 negate: false,
@@ -1874,7 +1870,8 @@ impl TestTextSelection for TextSelection {
                 all: false,
                 negate: false,
             }
-            | TextSelectionOperator::InSet {
+            | TextSelectionOperator::InSet { negate: false, .. }
+            | TextSelectionOperator::SameRange {
                 all: false,
                 negate: false,
             } => {
@@ -2024,7 +2021,8 @@ impl TestTextSelection for TextSelection {
             | TextSelectionOperator::Succeeds { negate: true, .. }
             | TextSelectionOperator::SameBegin { negate: true, .. }
             | TextSelectionOperator::SameEnd { negate: true, .. }
-            | TextSelectionOperator::InSet { negate: true, .. } => {
+            | TextSelectionOperator::InSet { negate: true, .. }
+            | TextSelectionOperator::SameRange { negate: true, .. } => {
                 !self.test_set(&operator.toggle_negate(), refset, resource)
             }
             _ => unreachable!("unknown operator+modifier combination"),
